@@ -219,8 +219,8 @@ def gfortran_syntax(text):
             return None
         if r.returncode == 0: return ''
         m = re.findall(r'Error: (.*)', r.stdout)
-        m = [re.sub(r'[‘’]', "'", x) for x in m]
-        return ('; '.join(sorted(set(m))[:3]) or r.stdout[-200:])[:300]
+        m = [re.sub(r'; did you mean .*$', '', re.sub(r'[‘’]', "'", x)) for x in m]
+        return (' ;; '.join(sorted(set(m))[:6]) or r.stdout[-200:])[:600]
     finally:
         shutil.rmtree(d, ignore_errors=True)
 
@@ -529,8 +529,12 @@ class ProgGen:
         members = []
         host = self.has('host')
         if 'inner1' in self.used_internal:
-            members += ['    subroutine inner1(x, y)', '      integer, intent(inout) :: x', '      integer, intent(in) :: y', '      integer :: t1, tt',
-                        '      t1 = y + %s' % ('n' if host else '1'), '      tt = t1*2 + %s' % ('mv' if self.r.random() < 0.5 else '3'),
+            jk1 = self.has('aliasvars') and self.r.random() < 0.7
+            members += ['    subroutine inner1(x, y)', '      integer, intent(inout) :: x', '      integer, intent(in) :: y',
+                        '      integer :: t1, tt' + (', jk, j' if jk1 else ''),
+                        '      t1 = y + %s' % ('n' if host else '1'), '      tt = t1*2 + %s' % ('mv' if self.r.random() < 0.5 else '3')]
+            if jk1: members += ['      do jk = 1, 3', '        do j = 1, 2', '          tt = tt + jk*j', '        end do', '      end do']
+            members += [
                         '      x = x + tt' + (' + t3' if host and self.r.random() < 0.5 else ''), '    end subroutine inner1']
         if 'inner2' in self.used_internal:
             members += ['    subroutine inner2(v, m)', '      integer, intent(in) :: m', '      integer, intent(inout) :: v(m)', '      integer :: i, loc1',
@@ -541,8 +545,11 @@ class ProgGen:
         if members: L += ['  contains'] + members
         L += ['  end subroutine kern']
         if self.used_helper:
+            jk2 = self.has('aliasvars') and self.r.random() < 0.7
             L += ['  subroutine helper(m, x, y)', '    integer, intent(in) :: m', '    integer, intent(inout) :: x(m)', '    integer, intent(inout) :: y',
-                  '    integer :: i, t1, hh(3)', '    t1 = y + mv', '    hh(1) = t1', '    do i = 1, m', '      x(i) = x(i) + hh(1) + np', '    end do', '    y = t1', '  end subroutine helper']
+                  '    integer :: i, t1, hh(3)' + (', jk' if jk2 else ''), '    t1 = y + mv', '    hh(1) = t1']
+            if jk2: L += ['    do jk = 1, 3', '      hh(jk) = t1 + jk', '    end do']
+            L += ['    do i = 1, m', '      x(i) = x(i) + hh(1) + np', '    end do', '    y = t1', '  end subroutine helper']
         if self.used_seq:
             L += ['  subroutine seqk(v, m)', '    integer, intent(in) :: m', '    integer, intent(inout) :: v(m)', '    integer :: i',
                   '    do i = 1, m', '      v(i) = v(i) + 1', '    end do', '  end subroutine seqk']
@@ -627,11 +634,12 @@ def _t_remove_code_trafo(sf, o):
                              remove_only_arrays=o.get('only_arrays', True), call_names=('ext2',)).apply(_kern(sf), role='kernel')
 def _t_inline_internal(sf, o):
     from loki.transformations import inline_internal_procedures
-    inline_internal_procedures(_kern(sf))
+    inline_internal_procedures(_kern(sf), allowed_aliases=tuple(o['aliases']) if o.get('aliases') else None)
 def _t_inline_marked(sf, o):
     from loki.transformations import inline_marked_subroutines
     _enrich(sf)
-    inline_marked_subroutines(_kern(sf), adjust_imports=o.get('adjust_imports', True))
+    inline_marked_subroutines(_kern(sf), adjust_imports=o.get('adjust_imports', True),
+                              allowed_aliases=tuple(o['aliases']) if o.get('aliases') else None)
 def _t_inline_const(sf, o):
     from loki.transformations import inline_constant_parameters
     inline_constant_parameters(_kern(sf), external_only=o.get('external_only', True))
@@ -646,7 +654,8 @@ def _t_inline_trafo(sf, o):
     from loki.transformations import InlineTransformation
     _enrich(sf)
     InlineTransformation(inline_constants=True, inline_elementals=True, inline_stmt_funcs=True, inline_internals=True,
-                         inline_marked=True, remove_dead_code=o.get('dce', True)).apply(_kern(sf), role='kernel')
+                         inline_marked=True, remove_dead_code=o.get('dce', True),
+                         allowed_aliases=tuple(o['aliases']) if o.get('aliases') else None).apply(_kern(sf), role='kernel')
 def _place(sf, new):
     """put new routines where ExtractTransformation puts them: into the module of `kern` (or behind it in the file)"""
     r = _kern(sf)
@@ -730,12 +739,12 @@ TRANSFORMS = {
     'do_remove_marked_regions':     (_t_remove_regions, ['remove', 'unused'], [{}, {'comment': False}]),
     'do_remove_calls':              (_t_remove_calls, ['extcall', 'internal'], [{}]),
     'RemoveCodeTransformation':     (_t_remove_code_trafo, ['remove', 'dead', 'unused', 'extcall'], [{}, {'only_arrays': False}]),
-    'inline_internal_procedures':   (_t_inline_internal, ['internal', 'host', 'ifun', 'assoc'], [{}]),
-    'inline_marked_subroutines':    (_t_inline_marked, ['marked', 'xmod', 'extcall'], [{}, {'adjust_imports': False}]),
+    'inline_internal_procedures':   (_t_inline_internal, ['internal', 'host', 'ifun', 'assoc', 'aliasvars'], [{}]),
+    'inline_marked_subroutines':    (_t_inline_marked, ['marked', 'xmod', 'extcall', 'aliasvars'], [{}, {'adjust_imports': False}]),
     'inline_constant_parameters':   (_t_inline_const, ['const', 'dead'], [{}, {'external_only': False}]),
     'inline_statement_functions':   (_t_inline_stmtfunc, ['stmtfunc', 'const'], [{}]),
     'inline_elemental_functions':   (_t_inline_elemental, ['marked', 'const'], [{}]),
-    'InlineTransformation':         (_t_inline_trafo, ['internal', 'host', 'marked', 'const', 'stmtfunc', 'dead'], [{}, {'dce': False}]),
+    'InlineTransformation':         (_t_inline_trafo, ['internal', 'host', 'marked', 'const', 'stmtfunc', 'dead', 'aliasvars'], [{}, {'dce': False}]),
     'outline_pragma_regions':       (_t_outline, ['outline', 'const', 'vec'], [{}]),
     'extract_internal_procedures':  (_t_extract_internal, ['internal', 'host', 'ifun', 'const'], [{}]),
     'ExtractTransformation':        (_t_extract_trafo, ['internal', 'host', 'outline', 'const'], [{}, {'internals': False}]),
@@ -1345,6 +1354,7 @@ def _post(t, r, o, error=None):
         return t
     t['post'] = unit_export(r, stmts_of(r.body.body))
     if t['tie'] == 'rm': t['only'] = bool(o.get('only_arrays', True))
+    if t['tie'] == 'inline': t['al'] = list(o.get('aliases') or [])
     return t
 
 def tie_term(t):
@@ -1363,6 +1373,10 @@ def tie_term(t):
                      unit_model(t['post'], MF.stmts_model(t['post']['body']))))
     if k == 'inline':
         fn = 'chk_inline_tie' if t.get('outside') else 'chk_inline'
+        if t.get('al') and not t.get('outside'):
+            return coq(C('chk_inline_al', list(t['al']), [(a, [int(x) for x in l]) for a, l in t['lbc']], [[(n, Nat(r)) for n, r in c['lranks']] for c in t['callees']],
+                         [callee_model(c) for c in t['callees']], unit_model(t['pre'], MF.stmts_model(t['pre']['body'])),
+                         unit_model(t['post'], MF.stmts_model(t['post']['body']))))
         return coq(C(fn, [(a, [int(x) for x in l]) for a, l in t['lbc']], [[(n, Nat(r)) for n, r in c['lranks']] for c in t['callees']],
                      [callee_model(c) for c in t['callees']], unit_model(t['pre'], MF.stmts_model(t['pre']['body'])),
                      unit_model(t['post'], MF.stmts_model(t['post']['body']))))
@@ -1412,6 +1426,9 @@ def _failures(out):
     if out.get('gf'): f.append('gfortran: ' + out['gf'])
     return f
 
+ALIAS_KINDS = ('inline_internal_procedures', 'inline_marked_subroutines', 'InlineTransformation')
+ALIAS_POOL = ['t1', 'i', 'j', 'tt', 'loc1', 'jk', 'hh', 'ta', 'tf', 't2', 'l', 'zz']
+
 GEN_EXTRA = {        # features that keep a generated program inside the class where the transformation is right
     'do_remove_unused_vars': ['lvlive'], 'RemoveCodeTransformation': ['lvlive'],
     'pipeline:lower+associates+inline+constants+vector+dce+unused': ['lvlive'],
@@ -1451,13 +1468,20 @@ class C41(Property):
         fs += GEN_EXTRA.get(kind, [])
         if tie:
             fs = {'resolve_vector_notation': ['vec', 'where'], 'do_resolve_associates': ['assoc'], 'do_remove_unused_vars': ['unused', 'internal', 'host', 'lvlive', 'extcall'],
-                  'inline_internal_procedures': ['internal', 'host', 'extcall'], 'do_loop_unroll': ['unroll'], 'do_remove_dead_code': ['dead', 'const'],
+                  'inline_internal_procedures': ['internal', 'host', 'extcall', 'aliasvars'], 'do_loop_unroll': ['unroll'], 'do_remove_dead_code': ['dead', 'const'],
                   'do_constant_propagation': ['dead', 'unroll']}[kind]
         src = ProgGen(rng, fs).program()
         opts = rng.choice(optsets)
+        if kind in ALIAS_KINDS and rng.random() < 0.6:
+            # allowed_aliases: names declared in caller and callee (t1, i, j), only in a callee (tt, loc1, jk, hh, ta, tf),
+            # only in the caller (t2, l), nowhere (zz)
+            opts = dict(opts, aliases=sorted(rng.sample(ALIAS_POOL, rng.randint(1, 4))))
         if tie and kind == 'do_resolve_associates': opts = {}
         if tie and kind == 'resolve_vector_notation': opts = {}
-        c = {'kind': kind, 'fam': 'prog', 'src': src, 'opts': opts, 'mask': MASKS.get(kind, []), 'gf': bool(gf)}
+        c = {'kind': kind, 'fam': 'prog', 'src': src, 'opts': opts, 'mask': list(MASKS.get(kind, [])), 'gf': bool(gf)}
+        if opts.get('aliases'):
+            # sharing a DO variable between a caller loop and an inlined loop is what the user asked for with allowed_aliases
+            c['mask1'] = [r"^Variable '\w+' at \(1\) cannot be redefined inside loop"]
         if tie: c['tie'] = True
         return c
 
@@ -1525,7 +1549,16 @@ class C41(Property):
         if '__exception__' in out:
             if str(out['__exception__']).startswith('crash:'): return None        # counted, not flagged
             return 'harness: %s %s' % (out['__exception__'], out.get('msg', ''))
-        bad = [x for x in _failures(out) if not any(re.search(m, x, flags=re.I) for m in case.get('mask', []))]
+        masks = case.get('mask', [])
+        bad = []
+        for x in _failures(out):
+            if any(re.search(m, x, flags=re.I) for m in masks): continue       # explained by a listed finding (whole gfortran output)
+            if x.startswith('gfortran: ') and case.get('mask1'):
+                # messages judged one by one against the case-specific exemptions
+                left = [e for e in x[len('gfortran: '):].split(' ;; ') if not any(re.search(m, e, flags=re.I) for m in case['mask1'])]
+                if not left: continue
+                x = 'gfortran: ' + ' ;; '.join(left)
+            bad.append(x)
         if case.get('expect_unscoped') and not bad: return None
         return ('after %s%s: ' % (case['kind'], json.dumps(case['opts']) if case['opts'] else '') + '; '.join(bad))[:600] if bad else None
 
